@@ -248,7 +248,7 @@ def make_gen(rng, focus=None, quirks=(), notify_off=0.25):
     def op9(self, impl):
       r = self.r
       k = r.random()
-      if k < 0.07:
+      if k < self.query_p:
         nodes = list(impl.reachable().values())
         if nodes:
           x, ri, keys = r.choice(nodes)
@@ -262,6 +262,8 @@ def make_gen(rng, focus=None, quirks=(), notify_off=0.25):
       r = self.r
       self.tags = {}
       self.next_oid = 1
+      # how much is asked between the mutations varies per case: everything after most steps ... almost nothing but single queries
+      self.observe_p, self.query_p = r.choice([(0.6, 0.07), (0.6, 0.07), (0.25, 0.2), (0.05, 0.3)])
       init = [self.node_lit(r.choice([1, 2, 2, 3])) for _ in range(r.choice([1, 2, 2, 3]))]
       impl = Impl9()
       _IMPL[0] = impl
@@ -275,7 +277,7 @@ def make_gen(rng, focus=None, quirks=(), notify_off=0.25):
         if op is None:
           break
         sc = self.scope()
-        steps.append([sc, op, int(r.random() < 0.6)])
+        steps.append([sc, op, int(r.random() < self.observe_p)])
         apply_any(impl, sc, op)
       return [list(self.quirks), init, steps]
   return Gen9(rng, cycles=True, focus=focus, quirks=quirks)
@@ -649,6 +651,7 @@ def sweep_cases(variants):
             ('rebind', [D.REBIND, P, [[[ek('x')], val(9)], [[ek('y'), ek('c')], val(5)]]]), ('rebind-skip', [REBINDX, P, [[[ek('x')], val(9)]], [1], 1]),
             ('rebind-noparents', [REBINDX, P, [[[ek('y'), ek('c')], val(5)]], [], 0])]
   n = 0
+  nq = 0
   for kind in ('list', 'dict', 'obj'):
     for depth in (0, 1, 2):
       for sub in ('none', 'target', 'ancestors', 'both'):
@@ -676,6 +679,16 @@ def sweep_cases(variants):
             for scope, sname in ((NS, 'on'), (OFF, 'off')):
               c = case9([tree], (NS, NOP()), (scope, op), (NS, NOP()))
               out.append(('sweep:%s.%s/depth%d/%s/notify-%s' % (kind, name, depth, sub, sname), c))
+              # silent mutations again with only SOME memoised facts held beforehand (one node, one fact): a reset that relies on what the
+              # nodes in between hold shows here; the pattern rotates over the cases
+              silent = scope is OFF or name in ('update', 'ior', 'rebind-skip', 'rebind-noparents')
+              if silent and depth > 0:
+                nq += 1
+                who = [[], keys[:1], keys][nq % 3] if depth > 1 else [[], keys][nq % 2]
+                facts = [[2], [0], [1], [0, 1, 2]][(nq // 3) % 4]
+                primes = [(NS, [QUERY, pos(0, *who), f], 0) for f in facts]
+                c = case9([tree], *(primes + [tuple(list((scope, op)) + [0]), (NS, NOP())]))
+                out.append(('sweep:%s.%s/depth%d/%s/notify-%s/primed-%d-%s' % (kind, name, depth, sub, sname, len(who), ''.join(map(str, facts))), c))
               # the same mutation issued as a rebind from the root of the tree (deep path)
               if depth > 0 and op[0] in (D.REBIND, REBINDX) and scope is NS:
                 deep = list(op); deep[1] = pos(0); deep[2] = [[[ek(k) for k in keys] + p, v] for p, v in op[2]]
@@ -708,14 +721,22 @@ def typed_classes():
       def _on_change(self, field_updates):
         log_change(self, field_updates)
         return super()._on_change(field_updates)
-    @P.members([('mid', T.Object(Mid)), ('mids', T.List(T.Object(Mid), default=[])), ('n', T.Int(default=0)), ('any', T.Any(default=None))])
+    @P.members([('c', T.Int(default=1)), ('w', T.Any(default=None))])
+    class DLeaf(P.Object):
+      allow_symbolic_assignment = True
+    @P.members([('dleaf', T.Object(DLeaf, default=DLeaf())), ('m', T.Int(default=0)),
+                ('dopts', T.Dict([('k', T.Int(default=0)), ('sub', T.Dict([('q', T.Int(default=1)), ('dl', T.Object(DLeaf, default=DLeaf()))]))]))])
+    class DMid(P.Object):
+      allow_symbolic_assignment = True
+    @P.members([('mid', T.Object(Mid)), ('mids', T.List(T.Object(Mid), default=[])), ('n', T.Int(default=0)), ('any', T.Any(default=None)),
+                ('dmid', T.Object(DMid, default=DMid()))])
     class Top(P.Object):
       allow_symbolic_assignment = True
     class TopS(Top):
       def _on_change(self, field_updates):
         log_change(self, field_updates)
         return super()._on_change(field_updates)
-    _TYPED = dict(Leaf=Leaf, LeafS=LeafS, Mid=Mid, MidS=MidS, Top=Top, TopS=TopS)
+    _TYPED = dict(Leaf=Leaf, LeafS=LeafS, Mid=Mid, MidS=MidS, Top=Top, TopS=TopS, DLeaf=DLeaf, DMid=DMid)
   return _TYPED
 
 def t_nodes(root):
@@ -743,6 +764,39 @@ def t_facts(x):
               nondefault={str(k): t_enc(v) for k, v in x.sym_nondefault().items()}, puresymbolic=bool(x.sym_puresymbolic),
               deterministic=bool(x.is_deterministic), abstract=bool(x.is_abstract))
 
+def t_expected(root):
+  """path -> facts of the tree rebuilt from JSON (nothing memoised)."""
+  P = D.pg()
+  rec = RECORDING[0]; RECORDING[0] = False
+  try:
+    root2 = P.from_json(P.to_json(root), allow_partial=True)
+    out = {}
+    for x in t_nodes(root):
+      try:
+        y = root2.sym_get(x.sym_path) if x.sym_path.keys else root2
+      except Exception:     # pylint: disable=broad-except
+        continue
+      if type(y) is type(x):
+        out[str(x.sym_path)] = t_facts(y)
+    return out
+  finally:
+    RECORDING[0] = rec
+def t_stale_against(root, expected):
+  out = []
+  rec = RECORDING[0]; RECORDING[0] = False
+  try:
+    for x in t_nodes(root):
+      b = expected.get(str(x.sym_path))
+      if b is None:
+        continue
+      a = t_facts(x)
+      for f in a:
+        if a[f] != b[f]:
+          out.append((x, f, a[f], b[f]))
+  finally:
+    RECORDING[0] = rec
+  return out
+
 def t_stale(root):
   P = D.pg()
   out = []
@@ -767,6 +821,31 @@ def t_stale(root):
   finally:
     RECORDING[0] = rec
   return out
+
+FACT_KINDS = ['is_partial', 'missing', 'nondefault', 'puresymbolic', 'deterministic']
+def ask(x, kind):
+  """Asks one node for one derived fact (which memoises it)."""
+  try:
+    if kind == 'is_partial': x.is_partial               # pylint: disable=pointless-statement
+    elif kind == 'missing': x.sym_missing()
+    elif kind == 'nondefault': x.sym_nondefault()
+    elif kind == 'puresymbolic': x.sym_puresymbolic     # pylint: disable=pointless-statement
+    else: x.is_deterministic                            # pylint: disable=pointless-statement
+  except Exception:        # pylint: disable=broad-except
+    pass
+def prime(r, root, who, kind, chain=None):
+  """who: 'none' | 'all' | 'root' | 'one' (one node of the chain / tree) | 'random' (a random subset) | an explicit list of nodes;
+  kind: one fact kind, or None = every kind."""
+  nodes = t_nodes(root)
+  if isinstance(who, list): sel = who
+  elif who == 'none': sel = []
+  elif who == 'all': sel = nodes
+  elif who == 'root': sel = [root]
+  elif who == 'one': sel = [r.choice(chain or nodes)]
+  else: sel = [x for x in nodes if r.random() < 0.4]
+  for x in sel:
+    for k in ([kind] if kind else FACT_KINDS):
+      ask(x, k)
 
 def typed_tree(r, subs):
   """A Top tree; subs = set of class names that subscribe."""
@@ -851,6 +930,101 @@ def typed_ops(r, root, classes):
   ops.append(('mids.clear', lambda: root.sym_getattr('mids').clear()))
   return ops
 
+def priming_sweep(ctx, rng, deadline, stride=1):
+  """typed trees of depth >= 3 (Object in Object in Object, Dict with a value spec, List in Dict in Object) x field depth x silent
+  mutation path x which nodes hold which derived fact before the mutation; afterwards every node is compared with the rebuilt tree."""
+  import random
+  P = D.pg(); C = typed_classes()
+  def tree():
+    return C['Top'].partial(
+        mid=C['Mid'].partial(leaf=C['Leaf'](x=1), items=[C['Leaf'](x=2), C['Leaf'].partial()], opts=dict(r=1),
+                             free=P.Dict(a=1, b=P.Dict(c=1), l=P.List([1, P.Dict(q=2)]))),
+        mids=[C['Mid'].partial(leaf=C['Leaf'].partial(), opts=dict(r=2, k=3))])
+  # (path of the container from the root, key, new values)
+  targets = [([], 'n', [5, P.MISSING_VALUE]), (['mid', 'leaf'], 'x', [7, P.MISSING_VALUE, 'oneof']), (['mid', 'leaf'], 'y', [1, 4]),
+             (['mid', 'opts'], 'k', [0, 9]), (['mid', 'items', 0], 'x', [3, 'oneof']), (['mid', 'items', 1], 'x', [3]),
+             (['mid', 'free', 'b'], 'c', [1, 2, 'oneof']), (['mid', 'free', 'l', 1], 'q', [5]), (['mids', 0, 'leaf'], 'x', [1]),
+             (['dmid', 'dleaf'], 'c', [1, 6]), (['dmid', 'dopts', 'sub'], 'q', [1, 8]), (['dmid', 'dopts', 'sub', 'dl'], 'c', [2]),
+             (['dmid', 'dleaf'], 'w', [None, 'dict'])]
+  modes = ['skip', 'off', 'off-direct', 'noparents', 'update', 'on']
+  n = skipped = 0
+  combos = []
+  for ti, (cpath, key, vals) in enumerate(targets):
+    depth = len(cpath)
+    whos = ['none', 'root', 'all'] + ['anc%d' % i for i in range(1, depth + 1)] + ['random']
+    for vi, v in enumerate(vals):
+      for mode in modes:
+        for who in whos:
+          for kind in [None] + FACT_KINDS:
+            combos.append((ti, vi, mode, who, kind))
+  # the combinations most likely to show a missing reset first (one node primed with one memoised fact, silent mutation), the rest
+  # in the order of a seeded shuffle; the time budget cuts the tail, never the head
+  order = list(range(len(combos)))
+  rng.shuffle(order)
+  def prio(ci):
+    ti, vi, mode, who, kind = combos[ci]
+    return 0 if (mode != 'on' and vi == 0 and who not in ('none', 'all', 'random') and kind in ('nondefault', 'missing', 'puresymbolic')) else 1
+  order.sort(key=prio)
+  if stride > 1:
+    head = [ci for ci in order if prio(ci) == 0]
+    tail = [ci for ci in order if prio(ci) == 1]
+    order = head + tail[::stride]
+  expected_cache = {}
+  for ci in order:
+    ti, vi, mode, who, kind = combos[ci]
+    if time.time() > deadline:
+      skipped += 1
+      continue
+    cpath, key, vals = targets[ti]
+    r = random.Random(ci)
+    RECORDING[0] = False
+    try:
+      with P.allow_partial(True):
+        root = tree()
+        chain = [root]
+        for k in cpath:
+          chain.append(chain[-1].sym_getattr(k))
+        cont = chain[-1]
+        v = vals[vi]
+        v = P.oneof([1, 2, 3]) if v == 'oneof' else P.Dict(g=P.oneof([1, 2])) if v == 'dict' else v
+        path = P.KeyPath(cpath + [key])
+        prime(r, root, [chain[int(who[3:])]] if who.startswith('anc') else who, kind)
+        exc = None
+        try:
+          if mode == 'skip': root.rebind({path: v}, skip_notification=True, raise_on_no_change=False)
+          elif mode == 'off':
+            with P.notify_on_change(False): root.rebind({path: v}, raise_on_no_change=False)
+          elif mode == 'off-direct':
+            with P.notify_on_change(False), P.allow_writable_accessors(True):
+              if isinstance(cont, P.Object): setattr(cont, key, v)
+              else: cont[key] = v
+          elif mode == 'noparents': cont.rebind({key: v}, notify_parents=False, raise_on_no_change=False)
+          elif mode == 'update':
+            if isinstance(cont, dict): cont.update({key: v})
+            else: cont.rebind({key: v}, skip_notification=True, raise_on_no_change=False)
+          else: root.rebind({path: v}, raise_on_no_change=False)
+        except Exception as e:      # pylint: disable=broad-except
+          exc = e
+      # what the rebuilt tree reports depends on the mutation only, not on what was asked before it
+      ek_ = (ti, vi, mode)
+      if ek_ not in expected_cache:
+        expected_cache[ek_] = t_expected(root)
+      st = t_stale_against(root, expected_cache[ek_])
+    except Exception as e:        # pylint: disable=broad-except
+      ctx.hit('C09/typed/harness/%s' % type(e).__name__, 'the priming sweep could not run a case: %s' % str(e)[:200], dict(priming=ci))
+      continue
+    n += 1
+    ctx.hist('priming_sweep_modes', mode); ctx.hist('priming_sweep_primed', who if not who.startswith('anc') else 'one ancestor')
+    ctx.hist('priming_sweep_fact', kind or 'all')
+    if st:
+      x, f, a, b = st[0]
+      ctx.hit('C09/stale/%s/typed-sweep:%s/%s' % (f, mode, 'primed-' + (who if not who.startswith('anc') else 'ancestor')),
+              'with %s asked for %s beforehand, after setting %s to %r (%s%s) the %s at %r reports %s = %s; a copy rebuilt from its contents gives %s' % (
+                  who, kind or 'every fact', str(path), v, mode, ', raised ' + type(exc).__name__ if exc is not None else '', type(x).__name__, str(x.sym_path), f, str(a)[:160], str(b)[:160]),
+              dict(priming=ci))
+  ctx.extra['priming_sweep'] = dict(cases=n, combinations=len(combos), stride=stride, skipped_for_time_budget=skipped)
+  return n
+
 def typed_run(ctx, rng, ncases, nsteps):
   """Random histories on typed trees; returns number of steps run."""
   P = D.pg()
@@ -878,10 +1052,9 @@ def typed_case(ctx, seed, nsteps, report=True):
     ops = typed_ops(r, root, classes)
     name, thunk = r.choice(ops)
     mode = r.choice(['on', 'on', 'off'])
-    if r.random() < 0.7:
-      for x in t_nodes(root):          # hold every memoised fact before the mutation
-        try: t_facts(x)
-        except Exception: pass        # pylint: disable=broad-except
+    # which derived facts are held before the mutation is part of the case: none / everything / the root only / one node / a random subset,
+    # each fact kind on its own
+    prime(r, root, r.choice(['all', 'all', 'none', 'root', 'one', 'random', 'random']), r.choice([None, None] + FACT_KINDS))
     del TLOG[:]
     RECORDING[0] = True
     exc = None
@@ -1029,8 +1202,9 @@ def run(ctx):
   ctx.extra['quirk_flags'] = dict(copy_drops_missing=quirks[0])
   # wall-clock budgets of the tier (the machine may be busy): hand-written cases and the sweep always run; generated histories and typed
   # trees stop when their budget is used; what was not run is reported, never silently dropped
-  deadline_random = t_start + ctx.scale(50, 900)
-  deadline_typed = t_start + ctx.scale(85, 1300)
+  deadline_priming = t_start + ctx.scale(38, 240)
+  deadline_random = t_start + ctx.scale(62, 900)
+  deadline_typed = t_start + ctx.scale(95, 1300)
   fixed = [('corpus:' + name, [quirks, c[1], c[2]]) for name, c in CORPUS9.items()]
   fixed += [(name, [quirks, c[1], c[2]]) for name, c in sweep_cases(ctx.scale(1, 3))]
   n = ctx.scale(600, 30000)
@@ -1074,6 +1248,13 @@ def run(ctx):
               sample=dict(kind=kind, case=trlib.to_line(case)[:700]) if (nontrivial and kind == 'random' and len(ctx.samples) < 3) or (kind.startswith('sweep') and len(ctx.samples) < 1) else None)
   for kind, case in fixed:
     run_one(kind, case)
+  # which nodes hold which derived fact before a silent mutation, on typed trees (direct oracle)
+  t1 = time.time()
+  try:
+    np_ = priming_sweep(ctx, rng, deadline_priming, stride=ctx.scale(8, 1))
+    ctx.log('priming sweep on typed trees: %d cases in %.1fs' % (np_, time.time() - t1))
+  except Exception as e:       # pylint: disable=broad-except
+    ctx.hit('C09/typed/harness/%s' % type(e).__name__, 'the priming sweep raised %s: %s' % (type(e).__name__, str(e)[:200]), dict(priming=-1))
   skipped = 0
   gen_errors = []
   with installed():
